@@ -243,8 +243,10 @@ def gen_graph(rng):
             f.add_disjunct(m, rng.choice(pool))
     for i in range(rng.randint(1, 3)):
         f.add_name(Term("q%d" % i), rng.choice(pool), f.LABEL_QUERY)
-    if rng.random() < 0.4:
+    if rng.random() < 0.5:
         k = rng.choice(acyc)
+        if rng.random() < 0.4:
+            k = -k      # evidence atom whose ground node is a negative literal (e.g. `q :- \\+a. evidence(q)`)
         f.add_name(Term("e0"), k, rng.choice([f.LABEL_EVIDENCE_POS, f.LABEL_EVIDENCE_NEG]))
     return f
 
